@@ -460,13 +460,15 @@ def _tagged_has(t, kinds):
 
 def f_setparam_unexported(case, obs, f):
     """the request data is the internal value: an enum member / bytes in it (json.dumps raises TypeError), or a scaled
-    leaf sent as the float instead of the integer (wrong value, or RangeError at the node)"""
+    leaf sent as the float instead of the integer (refused by the node as WrongTypeError/RangeError, or taken as the
+    integer when it happens to be a whole number: wrong value)"""
     if f['class'] not in ('setparam-not-accepted', 'setparam-changed') or obs.get('sent') is None:
         return False
     scaled = any(x['t'] == 'scaled' and G.dec_float(x['scale']) != 1.0 for x in _types(case['d']))
     if f['class'] == 'setparam-not-accepted':
         return (obs['set'] == ['err', 'TypeError'] and _tagged_has(obs['sent'], ('enum', 'bytes'))) or \
-            (obs['set'] == ['err', 'RangeError'] and scaled)
+            (obs['set'] in (['err', 'RangeError'], ['err', 'WrongTypeError']) and scaled
+             and _tagged_has(obs['sent'], ('float',)))
     return scaled
 
 
